@@ -498,6 +498,9 @@ func cmdCrash(fs *flag.FlagSet, args []string) {
 			}
 			rs := &seqRun{r: NewRng(1), unstable: unstable, objs: map[string]*objInfo{}, dirs: map[string]*dirInfo{}, hist: map[string]int{},
 				opTimeout: 30e9, deadH: map[string]bool{}, issued: map[string]bool{}}
+			if *mix == "free" {
+				rs.probeBlocks = 640 // enough to pick up whatever an interrupted free of a 770-block file released
+			}
 			trouble := ""
 			rs.sink = func(l string) {
 				if strings.HasPrefix(l, "# PANIC") || strings.HasPrefix(l, "# HANG") {
@@ -632,15 +635,34 @@ func (s *seqRun) postCrashProbe() string {
 		return fmt.Sprintf("CREATE of a new name in the root fails: %s", trunc(last))
 	}
 	// a file large enough to pick up blocks that recovery may wrongly consider free
-	data := make([]byte, 48*4096)
+	nprobe := 48
+	if s.probeBlocks > 0 {
+		nprobe = s.probeBlocks
+	}
+	data := make([]byte, nprobe*4096)
 	for i := range data {
 		data[i] = byte(0x5c + i/4096)
 	}
 	var wr nfstypes.WRITE3res
 	var rd nfstypes.READ3res
 	if !s.guarded("probe", func() {
-		wr = s.srv.NFSPROC3_WRITE(nfstypes.WRITE3args{File: mkfh3(f), Offset: 0, Count: nfstypes.Count3(len(data)), Stable: nfstypes.FILE_SYNC, Data: data})
-		rd = s.srv.NFSPROC3_READ(nfstypes.READ3args{File: mkfh3(f), Offset: 0, Count: nfstypes.Count3(len(data))})
+		// (in pieces the journal can hold)
+		for off := 0; off < len(data); off += 128 * 4096 {
+			end := off + 128*4096
+			if end > len(data) {
+				end = len(data)
+			}
+			w := s.srv.NFSPROC3_WRITE(nfstypes.WRITE3args{File: mkfh3(f), Offset: nfstypes.Offset3(off), Count: nfstypes.Count3(end - off), Stable: nfstypes.FILE_SYNC, Data: data[off:end]})
+			if off == 0 || w.Status != nfstypes.NFS3_OK {
+				wr = w
+			}
+			if w.Status != nfstypes.NFS3_OK || int(w.Resok.Count) != end-off {
+				data = data[:off+int(w.Resok.Count)]
+				break
+			}
+		}
+		wr.Resok.Count = nfstypes.Count3(len(data))
+		rd = s.readChunks(f, len(data))
 	}) {
 		return "WRITE/READ of a new file panics or hangs"
 	}
@@ -674,7 +696,7 @@ func (s *seqRun) postCrashProbe() string {
 	}
 	s.waitIdle()
 	if !s.guarded("probe reread", func() {
-		rd = s.srv.NFSPROC3_READ(nfstypes.READ3args{File: mkfh3(f), Offset: 0, Count: nfstypes.Count3(len(written))})
+		rd = s.readChunks(f, len(written))
 	}) {
 		return "READ of the new file panics or hangs"
 	}
@@ -698,6 +720,24 @@ func (s *seqRun) postCrashProbe() string {
 		return "REMOVE of the file just created fails"
 	}
 	return ""
+}
+
+// readChunks reads [0,n) of a file in pieces below the transfer limit.
+func (s *seqRun) readChunks(f []byte, n int) nfstypes.READ3res {
+	var all nfstypes.READ3res
+	for off := 0; off < n; off += 128 * 4096 {
+		cnt := 128 * 4096
+		if off+cnt > n {
+			cnt = n - off
+		}
+		r := s.srv.NFSPROC3_READ(nfstypes.READ3args{File: mkfh3(f), Offset: nfstypes.Offset3(off), Count: nfstypes.Count3(cnt)})
+		all.Status = r.Status
+		if r.Status != nfstypes.NFS3_OK {
+			return all
+		}
+		all.Resok.Data = append(all.Resok.Data, r.Resok.Data...)
+	}
+	return all
 }
 
 // writeVerf returns the write verifier the server instance reports.
